@@ -30,7 +30,7 @@ from ...entity_query_language.predicate import Symbol
 from ...entity_query_language.symbol_graph import (
     SymbolGraph,
 )
-from ...entity_query_language.utils import make_set
+from ...entity_query_language.utils import make_set, make_list
 
 SymbolType = Type[Symbol]
 """
@@ -230,7 +230,7 @@ class PropertyDescriptor(Symbol):
                     self.domain, self.wrapped_field.name, type(value)
                 )
             monitored_value = monitored_type(descriptor=self)
-            for v in make_set(value):
+            for v in make_list(value):
                 monitored_value._add_item(v, inferred=False)
             value = monitored_value
         return value
@@ -250,8 +250,11 @@ class PropertyDescriptor(Symbol):
             self._bind_owner_if_container_type(attr, owner=obj)
             setattr(obj, self.private_attr_name, attr)
         if isinstance(attr, MonitoredContainer):
+            # copy the new values before clearing, the assigned value can be the container itself
+            # (obj.field = obj.field, obj.field += [...]); a list keeps its order and its repeated elements.
+            new_values = make_list(value)
             attr._clear()
-            for v in make_set(value):
+            for v in new_values:
                 attr._add_item(v, inferred=False)
         else:
             setattr(obj, self.private_attr_name, value)
